@@ -13,7 +13,9 @@ import (
 	"math/big"
 	"path/filepath"
 	"reflect"
+	"runtime"
 	"strings"
+	"sync"
 
 	"github.com/iden3/go-schema-processor/v2/merklize"
 	"github.com/iden3/go-schema-processor/v2/verifiable"
@@ -64,6 +66,71 @@ type gen struct {
 	env   *credgen.Env
 	hists []*Input
 	obs   []histObs
+
+	mu     sync.Mutex
+	views  map[string]credgen.View // by spec key
+	fresh  map[string]callObs      // result of a call on fresh objects, by (spec key, options)
+	queued []*Input
+}
+
+type failure struct {
+	class, what string
+	input       any
+}
+
+// outcome of running one history: everything that goes into the report, so
+// that histories can run in parallel and be reported in generation order.
+type outcome struct {
+	obs    histObs
+	fails  []failure
+	counts []string
+	evals  int
+}
+
+func specKey(sp credgen.Spec) string {
+	b, _ := json.Marshal(sp)
+	return string(b)
+}
+
+func (g *gen) viewOf(sp credgen.Spec) credgen.View {
+	k := specKey(sp)
+	g.mu.Lock()
+	v, ok := g.views[k]
+	g.mu.Unlock()
+	if ok {
+		return v
+	}
+	c, err := credgen.Build(sp)
+	if err != nil {
+		panic(fmt.Sprintf("generator: %v", err))
+	}
+	v = g.env.ViewOf(&c.VC, pathsOf(sp))
+	g.mu.Lock()
+	g.views[k] = v
+	g.mu.Unlock()
+	return v
+}
+
+// freshCall: the call on objects nobody else has seen.
+func (g *gen) freshCall(sp credgen.Spec, o *credgen.Opts) callObs {
+	ob, _ := json.Marshal(o)
+	k := specKey(sp) + "|" + string(ob)
+	g.mu.Lock()
+	r, ok := g.fresh[k]
+	g.mu.Unlock()
+	if ok {
+		return r
+	}
+	c, _ := credgen.Build(sp)
+	var ro *verifiable.CoreClaimOptions
+	if o != nil {
+		ro = g.env.Real(*o)
+	}
+	r = oneCall(&c.VC, ro)
+	g.mu.Lock()
+	g.fresh[k] = r
+	g.mu.Unlock()
+	return r
 }
 
 func oneCall(vc *verifiable.W3CCredential, o *verifiable.CoreClaimOptions) (co callObs) {
@@ -339,6 +406,8 @@ func pathsOf(sp credgen.Spec) []string {
 }
 
 func (g *gen) register(sp credgen.Spec) {
+	g.mu.Lock()
+	defer g.mu.Unlock()
 	if g.env.Loader.Raw(sp.Schema.URL) == nil || string(g.env.Loader.Raw(sp.Schema.URL)) != string(sp.Schema.BuildDoc()) {
 		if err := g.env.Register(sp.Schema); err != nil {
 			panic(err)
@@ -351,9 +420,10 @@ func optsEqual(a credgen.Opts, r *verifiable.CoreClaimOptions) bool {
 }
 
 // run executes one history on the implementation and evaluates the oracles.
-func (g *gen) run(in *Input) histObs {
-	ctx := context.Background()
-	_ = ctx
+func (g *gen) run(in *Input) (out outcome) {
+	fail := func(class, what string, input any) {
+		out.fails = append(out.fails, failure{class, what, input})
+	}
 	var creds, pristine []*credgen.Cred
 	var views []credgen.View
 	for _, sp := range in.Creds {
@@ -365,7 +435,7 @@ func (g *gen) run(in *Input) histObs {
 		p, _ := credgen.Build(sp)
 		creds = append(creds, c)
 		pristine = append(pristine, p)
-		views = append(views, g.env.ViewOf(&p.VC, pathsOf(sp)))
+		views = append(views, g.viewOf(sp))
 	}
 	var objs []*verifiable.CoreClaimOptions
 	var mzSlices [][]merklize.MerklizeOption
@@ -374,41 +444,49 @@ func (g *gen) run(in *Input) histObs {
 		objs = append(objs, r)
 		mzSlices = append(mzSlices, r.MerklizerOpts)
 	}
-	var ho histObs
+	ho := &out.obs
+	usedCred := map[int]bool{}
+	usedOpts := map[int]bool{}
 	for ci, k := range in.Calls {
 		var op *verifiable.CoreClaimOptions
+		var effp *credgen.Opts
 		eff := credgen.Opts{Subject: "index"}
 		if k.Opts >= 0 {
 			op = objs[k.Opts]
 			eff = in.Opts[k.Opts]
+			effp = &eff
 		}
 		co := oneCall(&creds[k.Cred].VC, op)
 		ho.calls = append(ho.calls, co)
-		g.rep.Evaluations++
-		g.rep.Count(in.Kind + ":" + co.class)
+		out.evals++
+		out.counts = append(out.counts, in.Kind+":"+co.class)
 		where := map[string]any{"history": in, "call": ci}
 		if co.class == "panic" {
-			g.rep.Fail("c05-panic", "ToCoreClaim panicked or returned nil/nil: "+co.msg, where)
+			fail("c05-panic", "ToCoreClaim panicked or returned nil/nil: "+co.msg, where)
 			continue
 		}
 		// (1) the i-th result of a history equals a fresh call on fresh objects
-		freshCred, _ := credgen.Build(in.Creds[k.Cred])
-		var freshOpts *verifiable.CoreClaimOptions
-		if k.Opts >= 0 {
-			freshOpts = g.env.Real(in.Opts[k.Opts])
+		// (a call whose credential and option object have not been used yet IS that fresh call)
+		fo := co
+		if usedCred[k.Cred] || (k.Opts >= 0 && usedOpts[k.Opts]) {
+			fo = g.freshCall(in.Creds[k.Cred], effp)
+			out.evals++
+			if !sameObs(co, fo) {
+				fail("c05-history", fmt.Sprintf("call %d of the history gives %s (%s); the same call on fresh objects gives %s (%s)", ci, co.class, co.msg, fo.class, fo.msg), where)
+			}
 		}
-		fo := oneCall(&freshCred.VC, freshOpts)
-		if !sameObs(co, fo) {
-			g.rep.Fail("c05-history", fmt.Sprintf("call %d of the history gives %s (%s); the same call on fresh objects gives %s (%s)", ci, co.class, co.msg, fo.class, fo.msg), where)
+		usedCred[k.Cred] = true
+		if k.Opts >= 0 {
+			usedOpts[k.Opts] = true
 		}
 		// (2) layout / error cases against the independent arithmetic statement
 		ex := expected(in.Creds[k.Cred], views[k.Cred], eff)
 		if ex.ok != (fo.class == "ok") {
-			g.rep.Fail("c05-error-case", fmt.Sprintf("fresh call: got %s (%s), expected ok=%v (%s)", fo.class, fo.msg, ex.ok, ex.why), where)
+			fail("c05-error-case", fmt.Sprintf("fresh call: got %s (%s), expected ok=%v (%s)", fo.class, fo.msg, ex.ok, ex.why), where)
 		} else if ex.ok {
 			for i := range ex.slots {
 				if ex.slots[i].Cmp(fo.slots[i]) != 0 {
-					g.rep.Fail("c05-layout", fmt.Sprintf("raw slot %d is %s, the layout says %s", i, fo.slots[i], ex.slots[i]), where)
+					fail("c05-layout", fmt.Sprintf("raw slot %d is %s, the layout says %s", i, fo.slots[i], ex.slots[i]), where)
 					break
 				}
 			}
@@ -416,9 +494,9 @@ func (g *gen) run(in *Input) histObs {
 		// (3) repeatability (map-order nondeterminism)
 		for r := 0; r < in.Repeat; r++ {
 			ro := oneCall(&creds[k.Cred].VC, op)
-			g.rep.Evaluations++
+			out.evals++
 			if !sameObs(co, ro) {
-				g.rep.Fail("c05-nondeterministic", fmt.Sprintf("repetition %d of call %d gives %s (%s) after %s (%s)", r+1, ci, ro.class, ro.msg, co.class, co.msg), where)
+				fail("c05-nondeterministic", fmt.Sprintf("repetition %d of call %d gives %s (%s) after %s (%s)", r+1, ci, ro.class, ro.msg, co.class, co.msg), where)
 				break
 			}
 		}
@@ -431,25 +509,62 @@ func (g *gen) run(in *Input) histObs {
 			same = false
 		}
 		if !same {
-			g.rep.Fail("c05-options-written", fmt.Sprintf("option object %d was %+v before the history and is %+v after it", i, o, credgen.FromReal(objs[i])), map[string]any{"history": in})
+			fail("c05-options-written", fmt.Sprintf("option object %d was %+v before the history and is %+v after it", i, o, credgen.FromReal(objs[i])), map[string]any{"history": in})
 		}
 	}
 	for i := range creds {
 		a, _ := json.Marshal(&creds[i].VC)
 		b, _ := json.Marshal(&pristine[i].VC)
 		if !reflect.DeepEqual(creds[i].VC, pristine[i].VC) || string(a) != string(b) {
-			g.rep.Fail("c05-credential-written", fmt.Sprintf("credential %d differs from its pristine copy after the history", i), map[string]any{"history": in})
+			fail("c05-credential-written", fmt.Sprintf("credential %d differs from its pristine copy after the history", i), map[string]any{"history": in})
 		}
 	}
-	return ho
+	return out
 }
 
-func (g *gen) add(in *Input) {
-	o := g.run(in)
-	g.hists = append(g.hists, in)
-	g.obs = append(g.obs, o)
-	b, _ := json.Marshal(in)
-	g.rep.Distinct(string(b))
+// add queues a history; flush runs the queue in parallel and reports in order.
+func (g *gen) add(in *Input) { g.queued = append(g.queued, in) }
+
+func (g *gen) flush() {
+	outs := make([]outcome, len(g.queued))
+	w := runtime.NumCPU() / 2
+	if w < 2 {
+		w = 2
+	}
+	if w > 8 {
+		w = 8
+	}
+	var wg sync.WaitGroup
+	ch := make(chan int)
+	for k := 0; k < w; k++ {
+		wg.Add(1)
+		go func() {
+			defer wg.Done()
+			for i := range ch {
+				outs[i] = g.run(g.queued[i])
+			}
+		}()
+	}
+	for i := range g.queued {
+		ch <- i
+	}
+	close(ch)
+	wg.Wait()
+	for i, in := range g.queued {
+		o := outs[i]
+		g.hists = append(g.hists, in)
+		g.obs = append(g.obs, o.obs)
+		g.rep.Evaluations += o.evals
+		for _, c := range o.counts {
+			g.rep.Count(c)
+		}
+		for _, f := range o.fails {
+			g.rep.Fail(f.class, f.what, f.input)
+		}
+		b, _ := json.Marshal(in)
+		g.rep.Distinct(string(b))
+	}
+	g.queued = nil
 }
 
 // ---------- generators ----------
@@ -590,7 +705,7 @@ func (g *gen) gridStream(p pool) {
 		if full[i] {
 			os = all
 		} else {
-			for k := 0; k < 10; k++ {
+			for k := 0; k < g.cfg.Pick(5, 10); k++ {
 				os = append(os, all[rng.Intn(len(all))])
 			}
 			os = append(os, credgen.Opts{Subject: "index"}, credgen.Opts{Subject: "value", Root: "value", Upd: true, Version: 7, RevNonce: 99})
@@ -716,12 +831,7 @@ func (g *gen) writeShards() error {
 				key := string(kb)
 				j, ok := poolIdx[key]
 				if !ok {
-					g.register(sp)
-					c, err := credgen.Build(sp)
-					if err != nil {
-						return err
-					}
-					v := g.env.ViewOf(&c.VC, pathsOf(sp))
+					v := g.viewOf(sp)
 					or.Note(v)
 					j = len(poolDefs)
 					poolIdx[key] = j
@@ -771,7 +881,7 @@ func Run(cfg *common.Config) (*common.Report, error) {
 	rep := common.NewReport("C05")
 	rep.Correspondence = "Claim.Run.hmismatches: run_history / to_core_claim (Claim/Model.v) vs W3CCredential.ToCoreClaim over histories of calls sharing option objects and credentials: per call the 8 raw slot integers or the error class, and the option objects after the history"
 	rep.Rule = "option grid {\"\",index,value,bogus}^2 x updatable x version {0,1,2^32-1} x nonce {0,1,2^64-1} (288 points; complete on two credentials in the quick tier, on all in the thorough tier, sampled otherwise) x credentials (merklized; serialized with all 2^4 slot subsets; subject id none / two DIDs; expiration none / 2030 / 1969 / 0) + special credentials (unusable DIDs, null id, type taken from the top-level pair, missing named field, malformed attributes, non-string attribute, array-shaped scoped contexts, sibling types, unloadable context) + random histories of 1..6 calls over 1..3 shared option objects (or nil) and 1..3 credentials + 30-fold repetitions. distinct = distinct (credential specs, option objects, call list) histories; every history is non-trivial (it reaches the claim builder or one of its error points)."
-	g := &gen{cfg: cfg, rep: rep, env: credgen.NewEnv()}
+	g := &gen{cfg: cfg, rep: rep, env: credgen.NewEnv(), views: map[string]credgen.View{}, fresh: map[string]callObs{}}
 	merklize.SetDocumentLoader(g.env.Loader) // nil options carry no merklizer options: the default loader must be offline too
 	if cfg.Replay != "" {
 		return replay(cfg, g)
@@ -781,6 +891,7 @@ func Run(cfg *common.Config) (*common.Report, error) {
 	g.specialStream(p)
 	g.sequenceStream(p)
 	g.repeatStream(p)
+	g.flush()
 	for i, in := range g.hists {
 		if i%211 == 0 {
 			var res []string
@@ -816,6 +927,7 @@ func replay(cfg *common.Config, g *gen) (*common.Report, error) {
 		return nil, err
 	}
 	g.add(&in)
+	g.flush()
 	o := g.obs[0]
 	for i, c := range o.calls {
 		fmt.Printf("replay: call %d -> %s %s %v\n", i, c.class, c.msg, c.slots)
